@@ -2,7 +2,7 @@
    This file contains only statements closed by [exact <lemma>] and their assumptions. *)
 From Coq Require Import ZArith Reals List.
 From Coquelicot Require Import Coquelicot.
-From FF Require Import Base.Ops Inst.RInst Base.RAlg Model.Numeric Model.Consts Model.Tie.C01 Proofs.Foi Proofs.CMBase Proofs.CMIntegral Proofs.CMBound Proofs.CMSym.
+From FF Require Import Base.Ops Inst.RInst Base.RAlg Model.Numeric Model.Consts Model.Tie.C01 Proofs.Foi Proofs.CMBase Proofs.CMIntegral Proofs.CMBound Proofs.CMSym Proofs.CMBessel.
 Local Open Scope R_scope.
 
 (* Segment integral, masked branch: the model value is the integral of e^{i x t} over [0, dt]. *)
@@ -173,3 +173,22 @@ Theorem C01_control_matrix_entry_bound : forall d thr evs Vs dts om bs ns nc j k
   <= segs_sdt (pulse_segs evs Vs dts nc j) * (Fnorm d (nthm ns j) * Fnorm d (nthm bs k)).
 Proof. exact control_matrix_entry_bound. Qed.
 Print Assumptions C01_control_matrix_entry_bound.
+
+(* Diagonal of the fidelity filter function, orthonormal (possibly incomplete, not necessarily Hermitian) basis, every
+   V_g unitary: F_aa(w) is real and 0 <= F_aa(w) <= (sum_g |s_a^g| |dt_g|)^2 ||N_a||_F^2 for every frequency
+   (B_ak = tr(X C_k) for one matrix X; Bessel's inequality; triangle inequality and unitary invariance of ||.||_F). *)
+Theorem C01_ff_diag_bound : forall d thr evs Vs dts om bs ns nc a o,
+  0 <= thr -> basis_orthonormal d bs ->
+  (forall g, (g < length dts)%nat -> funitary d (toF (nth g Vs nil))) ->
+  (a < length ns)%nat -> (o < length om)%nat ->
+  let B := control_matrix_from_scratch RO d thr evs Vs (propagators RO d evs Vs dts) om bs ns nc dts (times RO dts) in
+  let F := filter_function RO (length ns) (length bs) (length om) B in
+  snd (a3get RO F a a o) = 0 /\
+  0 <= fst (a3get RO F a a o) <=
+       (segs_sdt (pulse_segs evs Vs dts nc a) * Fnorm d (nthm ns a)) * (segs_sdt (pulse_segs evs Vs dts nc a) * Fnorm d (nthm ns a)).
+Proof. exact ff_diag_bound. Qed.
+Print Assumptions C01_ff_diag_bound.
+
+Import ListNotations.
+Example C01_basis_orthonormal_satisfiable : basis_orthonormal 2 [[[1c; 0c]; [0c; 0c]]; [[0c; 0c]; [0c; 1c]]].
+Proof. exact basis_orthonormal_example. Qed.
